@@ -13,6 +13,7 @@ import (
 	"strconv"
 	"strings"
 	"sync"
+	"sync/atomic"
 	"syscall"
 	"time"
 
@@ -29,6 +30,85 @@ const (
 
 // ---------------------------------------------------------------------------------------------
 // enumeration
+
+// modelProbes: phase A. Every hostile model is first written through the API (the case proper); models whose write
+// returned are then probed, as a pre-existing model in the datastore, by one Check. Follow-ups are generated from the outcomes.
+func modelProbes(thorough bool, kind string, probes map[string]*probeOutcome, emit func(Case), skipped func(string, int64)) {
+	for _, sc := range modelScns {
+		for _, a := range sc.Args(thorough) {
+			if kind == "model" {
+				emit(Case{Kind: "model", RPC: "WriteAuthorizationModel", Scn: sc.Name, Arg: a})
+				continue
+			}
+			if api := probes[probeKey(Case{Kind: "model", Scn: sc.Name, Arg: a})]; api != nil && api.dead {
+				// loading the stored model runs the same validation that did not return through the API
+				skipped("stored_model_probe_skipped_validation_did_not_return_via_api", 1)
+				continue
+			}
+			emit(Case{Kind: "stored-model", RPC: "Check", Scn: sc.Name, Arg: a})
+		}
+	}
+}
+
+type probeOutcome struct {
+	done  bool
+	code  string
+	cpuMs int64
+	dead  bool // the worker died or hung on it
+	inapp bool
+}
+
+func probeKey(c Case) string { return c.Kind + "|" + c.Scn + "|" + strconv.Itoa(c.Arg) }
+
+// modelFollowups: phase C. API follow-ups only on accepted models; none where validating the model already costs more
+// than the follow-up budget (every follow-up would re-validate: same mechanism, same verdict, counted as skipped).
+func modelFollowups(thorough bool, probes map[string]*probeOutcome, emit func(Case), skipped func(why string, n int64)) {
+	budget := int64(1500)
+	if thorough {
+		budget = 15000
+	}
+	cfgs := []string{"", "exp", "shadow"}
+	for _, sc := range modelScns {
+		for _, a := range sc.Args(thorough) {
+			n := int64(len(cfgs) * len(modelFollowRPCs))
+			api := probes[probeKey(Case{Kind: "model", Scn: sc.Name, Arg: a})]
+			switch {
+			case api == nil || !api.done || api.dead:
+				skipped("model_followups_skipped_write_did_not_return", n)
+			case api.code != "OK":
+				skipped("model_followups_skipped_model_rejected", n)
+			case api.cpuMs > budget:
+				skipped("model_followups_skipped_validation_over_cpu_budget", n)
+			default:
+				for _, cfg := range cfgs {
+					for _, rpc := range modelFollowRPCs {
+						emit(Case{Kind: "model", RPC: rpc, Cfg: cfg, Scn: sc.Name, Arg: a})
+					}
+				}
+			}
+			st := probes[probeKey(Case{Kind: "stored-model", Scn: sc.Name, Arg: a})]
+			switch {
+			case st == nil:
+				skipped("stored_model_followups_skipped_validation_did_not_return_via_api", n-1)
+			case !st.done || st.dead:
+				skipped("stored_model_followups_skipped_probe_did_not_return", n-1)
+			case st.inapp:
+				skipped("stored_model_followups_skipped_datastore_refused_model", n-1)
+			case st.cpuMs > budget:
+				skipped("stored_model_followups_skipped_validation_over_cpu_budget", n-1)
+			default:
+				for _, cfg := range cfgs {
+					for _, rpc := range modelFollowRPCs {
+						if cfg == "" && rpc == "Check" {
+							continue // was the probe
+						}
+						emit(Case{Kind: "stored-model", RPC: rpc, Cfg: cfg, Scn: sc.Name, Arg: a})
+					}
+				}
+			}
+		}
+	}
+}
 
 func enumerate(thorough bool, emit func(Case)) {
 	ms := Methods()
@@ -57,18 +137,6 @@ func enumerate(thorough bool, emit func(Case)) {
 			for _, t := range targets[rpc] {
 				for _, op := range t.Ops {
 					emit(Case{Kind: "mut", RPC: rpc, Cfg: cfg, Muts: []Mut{{t.Path, op}}})
-				}
-			}
-		}
-	}
-	// hostile models: through the API (the write itself, then follow-ups where accepted) and pre-existing in the datastore
-	for _, sc := range modelScns {
-		for _, a := range sc.Args(thorough) {
-			emit(Case{Kind: "model", RPC: "WriteAuthorizationModel", Scn: sc.Name, Arg: a})
-			for _, cfg := range cfgs {
-				for _, rpc := range modelFollowRPCs {
-					emit(Case{Kind: "model", RPC: rpc, Cfg: cfg, Scn: sc.Name, Arg: a})
-					emit(Case{Kind: "stored-model", RPC: rpc, Cfg: cfg, Scn: sc.Name, Arg: a})
 				}
 			}
 		}
@@ -129,14 +197,14 @@ func (c *capBuf) Write(p []byte) (int, error) {
 	c.mu.Lock()
 	defer c.mu.Unlock()
 	n := len(p)
-	if room := 16384 - len(c.head); room > 0 {
+	if room := 262144 - len(c.head); room > 0 {
 		k := min(room, len(p))
 		c.head = append(c.head, p[:k]...)
 		p = p[k:]
 	}
 	c.tail = append(c.tail, p...)
-	if len(c.tail) > 16384 {
-		c.tail = c.tail[len(c.tail)-16384:]
+	if len(c.tail) > 65536 {
+		c.tail = c.tail[len(c.tail)-65536:]
 	}
 	return n, nil
 }
@@ -220,12 +288,33 @@ func (p *proc) close() {
 	}
 }
 
+const hardCap = 10 * watchdog
+
+// procCPU = user+system CPU time consumed so far by process pid (0 if unreadable).
+func procCPU(pid int) time.Duration {
+	b, err := os.ReadFile("/proc/" + strconv.Itoa(pid) + "/stat")
+	if err != nil {
+		return 0
+	}
+	s := string(b)
+	if k := strings.LastIndexByte(s, ')'); k >= 0 {
+		f := strings.Fields(s[k+1:])
+		if len(f) > 12 {
+			ut, _ := strconv.ParseInt(f[11], 10, 64)
+			st, _ := strconv.ParseInt(f[12], 10, 64)
+			return time.Duration(ut+st) * 10 * time.Millisecond
+		}
+	}
+	return 0
+}
+
 // outcome of running one batch on a process
 type batchOutcome struct {
 	results  []*Result // nil where not completed
 	end      *batchEnd
 	inflight int    // index of the case that was running when the process died / hung, -1 if none
 	death    string // "" | "died" | "hang"
+	hangCPU  time.Duration
 	stderr   string
 	exit     string
 }
@@ -235,6 +324,8 @@ func runBatch(p *proc, b batch) batchOutcome {
 	line, _ := json.Marshal(b)
 	go func() { _, _ = p.stdin.Write(append(line, '\n')) }()
 	limit := watchdog + time.Duration(b.LingerMs)*time.Millisecond
+	cpuStart, caseStart := procCPU(p.cmd.Process.Pid), time.Now()
+	idle := 0
 	timer := time.NewTimer(limit)
 	defer timer.Stop()
 	for {
@@ -257,6 +348,7 @@ func runBatch(p *proc, b batch) batchOutcome {
 			switch {
 			case strings.HasPrefix(ln, "S "):
 				o.inflight, _ = strconv.Atoi(ln[2:])
+				cpuStart, caseStart, idle = procCPU(p.cmd.Process.Pid), time.Now(), 0
 			case strings.HasPrefix(ln, "D "):
 				rest := ln[2:]
 				sp := strings.IndexByte(rest, ' ')
@@ -273,6 +365,22 @@ func runBatch(p *proc, b batch) batchOutcome {
 				return o
 			}
 		case <-timer.C:
+			// wall-clock watchdog expired. A starved worker (oversubscribed machine) is not a hang: the verdict needs a process
+			// that stays idle (blocked) or more CPU seconds burnt on the case than the watchdog allows, or the hard cap.
+			now := procCPU(p.cmd.Process.Pid)
+			if time.Since(caseStart) < hardCap && now-cpuStart < watchdog {
+				time.Sleep(3 * time.Second)
+				if later := procCPU(p.cmd.Process.Pid); later-now > 50*time.Millisecond {
+					idle = 0
+				} else {
+					idle++
+				}
+				if idle < 3 {
+					timer.Reset(time.Second)
+					continue
+				}
+			}
+			o.hangCPU = procCPU(p.cmd.Process.Pid) - cpuStart
 			p.kill()
 			o.death = "hang"
 			o.stderr = p.stderr.String()
@@ -326,9 +434,18 @@ type tally struct {
 	perKind  map[string]int64
 	slowest  int64
 	slowCase string
+	slow     []slowRec
+	cpuMs    int64
 	overDl   int64
 	recycles int64
 	spawns   int64
+}
+
+type slowRec struct {
+	CPUMs int64  `json:"cpu_ms"`
+	MS    int64  `json:"answer_ms"`
+	Code  string `json:"answer"`
+	Case  string `json:"case"`
 }
 
 type checker struct {
@@ -336,6 +453,7 @@ type checker struct {
 	t     *tally
 	pmu   sync.Mutex
 	pseen map[string]bool // panic-recovered signatures already confirmed
+	probes map[string]*probeOutcome
 }
 
 func (ck *checker) account(c Case, res *Result) {
@@ -381,10 +499,31 @@ func (ck *checker) account(c Case, res *Result) {
 	if res.DurMs > RequestDeadline.Milliseconds()+1000 {
 		ck.t.overDl++
 	}
+	ck.t.cpuMs += res.CPUMs
+	if res.CPUMs > 1000 {
+		ck.t.slow = append(ck.t.slow, slowRec{res.CPUMs, res.DurMs, res.Code, c.Key()})
+	}
 	ck.t.mu.Unlock()
 	if res.Code == "OK" || res.Code == "InvalidArgument" {
 		r.Sample(map[string]any{"case": c, "answer": res.Code, "wire_bytes": res.Wire, "flags": res.Flags})
 	}
+}
+
+// probe records the outcome of a phase-A model probe.
+func (ck *checker) probe(c Case, res *Result, dead bool) {
+	if c.Scn == "" || (c.Kind != "model" && c.Kind != "stored-model") {
+		return
+	}
+	if !(c.Kind == "model" && c.RPC == "WriteAuthorizationModel") && !(c.Kind == "stored-model" && c.RPC == "Check" && c.Cfg == "") {
+		return
+	}
+	po := &probeOutcome{done: true, dead: dead}
+	if res != nil {
+		po.code, po.cpuMs, po.inapp = res.Code, res.CPUMs, strings.Contains(res.Flags, "N")
+	}
+	ck.pmu.Lock()
+	ck.probes[probeKey(c)] = po
+	ck.pmu.Unlock()
 }
 
 func (ck *checker) noteEnd(e *batchEnd) {
@@ -460,11 +599,51 @@ func confirm(c Case, want func(o batchOutcome) (sig, desc string, bad bool)) ver
 	return v
 }
 
+// hangFrame names where the request goroutine is stuck: the most frequent openfga function on its stack (recursion),
+// ties broken towards the innermost frame.
+func hangFrame(dump string) string {
+	for _, blk := range strings.Split(dump, "\n\ngoroutine ") {
+		if !strings.Contains(blk, "verifh/c19.(*worker).deliver") {
+			continue
+		}
+		count := map[string]int{}
+		var order []string
+		for _, m := range frameRe.FindAllStringSubmatch(blk, -1) {
+			f := m[1]
+			if strings.Contains(f, "/verifh/") || strings.Contains(f, "/pkg/middleware/") {
+				continue
+			}
+			if k := strings.LastIndex(f, "/"); k >= 0 {
+				f = f[k+1:]
+			}
+			if k := strings.Index(f, ".func"); k >= 0 {
+				f = f[:k]
+			}
+			if count[f] == 0 {
+				order = append(order, f)
+			}
+			count[f]++
+		}
+		best := ""
+		for _, f := range order {
+			if best == "" || count[f] > count[best] {
+				best = f
+			}
+		}
+		return best
+	}
+	return ""
+}
+
 func deathVerdict(c Case) func(o batchOutcome) (string, string, bool) {
 	return func(o batchOutcome) (string, string, bool) {
 		switch o.death {
 		case "hang":
-			return "hang-past-deadline/" + c.RPC, fmt.Sprintf("no answer within the watchdog (%s = 20x the %s request deadline); goroutine dump:\n%s", watchdog, RequestDeadline, trunc(o.stderr, 6000)), true
+			sig := "hang-past-deadline/" + c.RPC
+			if f := hangFrame(o.stderr); f != "" {
+				sig += "@" + f
+			}
+			return sig, fmt.Sprintf("no answer within the watchdog (%s = 20x the %s request deadline; %s CPU burnt on the case when killed); goroutine dump:\n%s", watchdog, RequestDeadline, o.hangCPU.Round(time.Second), trunc(o.stderr, 6000)), true
 		case "died":
 			class, frame := classify(o.stderr, o.exit)
 			sig := class + "/" + c.RPC
@@ -478,6 +657,7 @@ func deathVerdict(c Case) func(o batchOutcome) (string, string, bool) {
 }
 
 var verbose = os.Getenv("VERIF_C19_VERBOSE") != ""
+var deathSeq atomic.Int32
 
 func vlog(f string, a ...any) {
 	if verbose {
@@ -492,7 +672,10 @@ func (ck *checker) handleDeath(cases []Case, o batchOutcome) (harnessErr bool) {
 		if o.inflight >= 0 {
 			c = cases[o.inflight].Key()
 		}
-		vlog("worker %s class=%s inflight=%v exit=%s stderr:\n%s", o.death, class, c, o.exit, trunc(o.stderr, 1500))
+		dn := deathSeq.Add(1)
+		_ = os.MkdirAll(core.Root+"/.build/tmp/c19/deaths", 0o755)
+		_ = os.WriteFile(fmt.Sprintf("%s/.build/tmp/c19/deaths/%03d.txt", core.Root, dn), []byte(fmt.Sprintf("%v\n%s\n%s", c, o.exit, o.stderr)), 0o644)
+		vlog("worker %s class=%s inflight=%v exit=%s hangcpu=%s (deaths/%03d.txt)", o.death, class, c, o.exit, o.hangCPU, dn)
 	}
 	if o.death == "died" && class == "harness-error" {
 		fmt.Fprintf(os.Stderr, "C19: harness error in worker:\n%s\n", trunc(o.stderr, 4000))
@@ -513,7 +696,7 @@ func (ck *checker) handleDeath(cases []Case, o batchOutcome) (harnessErr bool) {
 			}
 		}
 	}
-	for i := last - 1; i >= 0 && len(suspects) < 9; i-- {
+	for i := last - 1; i >= 0 && len(suspects) < 9 && o.death == "died"; i-- {
 		suspects = append(suspects, i)
 	}
 	decided := false
@@ -585,69 +768,102 @@ func firstFrame(stack string) string {
 }
 
 // slot drives one worker process over batches pulled from ch.
-func (ck *checker) slot(ch <-chan []Case, harnessErr *bool, hmu *sync.Mutex) {
+func (ck *checker) slot(pch, ch <-chan []Case, harnessErr *bool, hmu *sync.Mutex, pdone func()) {
 	var p *proc
 	defer func() {
 		if p != nil {
 			p.close()
 		}
 	}()
-	for cases := range ch {
-		if ck.r.Expired() {
-			continue // drain
+	broken := false
+	for pch != nil || ch != nil {
+		var cases []Case
+		var ok, prio bool
+		select {
+		case cases, ok = <-pch:
+			prio = true
+		default:
+			select {
+			case cases, ok = <-pch:
+				prio = true
+			case cases, ok = <-ch:
+			}
 		}
-		for len(cases) > 0 {
-			if p == nil {
-				var err error
-				if p, err = spawn(); err != nil {
-					fmt.Fprintln(os.Stderr, "C19: cannot spawn worker:", err)
-					hmu.Lock()
-					*harnessErr = true
-					hmu.Unlock()
-					return
-				}
-				ck.t.mu.Lock()
-				ck.t.spawns++
-				ck.t.mu.Unlock()
+		if !ok {
+			if prio {
+				pch = nil
+			} else {
+				ch = nil
 			}
-			o := runBatch(p, batch{Cases: cases})
-			done := 0
-			for i, res := range o.results {
-				if res == nil {
-					continue
-				}
-				done = i + 1
-				ck.account(cases[i], res)
-				if res.Panic != nil {
-					ck.handlePanic(cases[i], res)
-				}
-			}
-			ck.noteEnd(o.end)
-			if o.death == "" {
-				if o.end != nil && o.end.Recycle {
-					p.close()
-					p = nil
-				}
-				break
-			}
-			// the process is gone
-			p = nil
-			if ck.handleDeath(cases, o) {
+			continue
+		}
+		if !broken && !ck.r.Expired() {
+			broken = ck.runCases(&p, cases)
+			if broken {
 				hmu.Lock()
 				*harnessErr = true
 				hmu.Unlock()
-				return
 			}
-			skip := done
-			if o.inflight >= 0 {
-				skip = o.inflight + 1
-			}
-			if skip == 0 {
-				skip = 1 // never retry the same head forever
-			}
-			cases = cases[skip:]
+		}
+		if prio {
+			pdone()
 		}
 	}
+}
+
+// runCases executes one batch, restarting the worker after a death; returns true on a harness error.
+func (ck *checker) runCases(pp **proc, cases []Case) bool {
+	for len(cases) > 0 {
+		if *pp == nil {
+			p, err := spawn()
+			if err != nil {
+				fmt.Fprintln(os.Stderr, "C19: cannot spawn worker:", err)
+				return true
+			}
+			*pp = p
+			ck.t.mu.Lock()
+			ck.t.spawns++
+			ck.t.mu.Unlock()
+		}
+		o := runBatch(*pp, batch{Cases: cases})
+		done := 0
+		for i, res := range o.results {
+			if res == nil {
+				continue
+			}
+			done = i + 1
+			ck.probe(cases[i], res, false)
+			ck.account(cases[i], res)
+			if res.Panic != nil {
+				ck.handlePanic(cases[i], res)
+			}
+		}
+		ck.noteEnd(o.end)
+		if o.death == "" {
+			if o.end != nil && o.end.Recycle {
+				(*pp).close()
+				*pp = nil
+			}
+			return false
+		}
+		// the process is gone
+		*pp = nil
+		if o.inflight >= 0 {
+			ck.probe(cases[o.inflight], nil, true)
+		}
+		if ck.handleDeath(cases, o) {
+			return true
+		}
+		skip := done
+		if o.inflight >= 0 {
+			skip = o.inflight + 1
+		}
+		if skip == 0 {
+			skip = 1 // never retry the same head forever
+		}
+		cases = cases[skip:]
+	}
+	return false
 }
 
 // Run is the entry point of the check (parent) and of its workers.
@@ -680,7 +896,7 @@ func Run(o *core.Options) int {
 		"a verdict needs 3/3 reproductions of the case alone in a fresh worker; anything less is recorded as an anomaly")
 	r.Set("alphabet", map[string]any{"strings": strAlpha, "token_fields_extra": tokAlpha, "map_keys": keyAlpha, "lists": listOps, "maps": mapOps, "messages": msgOps,
 		"struct": structOps(o.Thorough()), "userset": usersetNestOps(o.Thorough()), "condition_param_type": paramTypeNestOps(o.Thorough()), "stored_tuple_strings": tupAlpha})
-	ck := &checker{r: r, t: &tally{codes: map[string]int64{}, perRPC: map[string]int64{}, perKind: map[string]int64{}}, pseen: map[string]bool{}}
+	ck := &checker{r: r, t: &tally{codes: map[string]int64{}, perRPC: map[string]int64{}, perKind: map[string]int64{}}, pseen: map[string]bool{}, probes: map[string]*probeOutcome{}}
 
 	if o.Replay != "" {
 		var c Case
@@ -716,15 +932,22 @@ func Run(o *core.Options) int {
 	var wg sync.WaitGroup
 	var herr bool
 	var hmu sync.Mutex
-	for i := 0; i < o.Workers; i++ {
-		wg.Add(1)
-		go func() { defer wg.Done(); ck.slot(ch, &herr, &hmu) }()
-	}
 	var generated int64
 	perKind := map[string]int64{}
+	var gmu sync.Mutex
+	count := func(c Case) {
+		gmu.Lock()
+		generated++
+		perKind[c.Kind]++
+		gmu.Unlock()
+	}
+	skipped := func(why string, n int64) { r.Count(why, n) }
 	if os.Getenv("VERIF_C19_LIST") != "" {
 		per := map[string]int{}
-		enumerate(o.Thorough(), func(c Case) { per[c.Kind+"/"+c.RPC+"/"+strconv.Itoa(len(c.Muts))]++; generated++ })
+		cnt := func(c Case) { per[c.Kind+"/"+c.RPC+"/"+strconv.Itoa(len(c.Muts))]++; generated++ }
+		modelProbes(o.Thorough(), "model", nil, cnt, skipped)
+		modelProbes(o.Thorough(), "stored-model", nil, cnt, skipped)
+		enumerate(o.Thorough(), cnt)
 		var ks []string
 		for k := range per {
 			ks = append(ks, k)
@@ -733,19 +956,56 @@ func Run(o *core.Options) int {
 		for _, k := range ks {
 			fmt.Printf("%8d %s\n", per[k], k)
 		}
-		fmt.Println("total", generated)
+		fmt.Println("total (without model follow-ups)", generated)
 		return 0
 	}
+	// phase A (priority queue): model probes, one case per batch since they can be slow
+	var pa sync.WaitGroup
+	pch := make(chan []Case, 1024)
+	for i := 0; i < o.Workers; i++ {
+		wg.Add(1)
+		go func() {
+			defer wg.Done()
+			ck.slot(pch, ch, &herr, &hmu, pa.Done)
+		}()
+	}
+	snapshot := func() map[string]*probeOutcome {
+		ck.pmu.Lock()
+		defer ck.pmu.Unlock()
+		m := map[string]*probeOutcome{}
+		for k, v := range ck.probes {
+			m[k] = v
+		}
+		return m
+	}
+	aDone := make(chan struct{})
+	go func() {
+		for _, kind := range []string{"model", "stored-model"} {
+			modelProbes(o.Thorough(), kind, snapshot(), func(c Case) {
+				count(c)
+				pa.Add(1)
+				pch <- []Case{c}
+			}, skipped)
+			pa.Wait()
+		}
+		close(pch)
+		close(aDone)
+	}()
+	// phase B: everything that does not depend on phase A
 	cur := make([]Case, 0, batchSize)
-	enumerate(o.Thorough(), func(c Case) {
-		generated++
-		perKind[c.Kind]++
+	emit := func(c Case) {
+		count(c)
 		cur = append(cur, c)
 		if len(cur) == batchSize {
 			ch <- cur
 			cur = make([]Case, 0, batchSize)
 		}
-	})
+	}
+	enumerate(o.Thorough(), emit)
+	// phase C: follow-ups on the probed models
+	<-aDone
+	vlog("phase A complete, %d cases handed out so far", generated)
+	modelFollowups(o.Thorough(), snapshot(), emit, skipped)
 	if len(cur) > 0 {
 		ch <- cur
 	}
@@ -767,6 +1027,13 @@ func Run(o *core.Options) int {
 	r.Set("worker_recycles_for_rss", t.recycles)
 	r.Set("slowest_case_ms", map[string]any{"ms": t.slowest, "case": t.slowCase})
 	r.Set("answers_later_than_deadline_plus_1s", t.overDl)
+	sort.Slice(t.slow, func(i, j int) bool { return t.slow[i].CPUMs > t.slow[j].CPUMs })
+	r.Set("cases_over_1s_cpu", len(t.slow))
+	r.Set("worker_cpu_seconds_on_answered_cases", t.cpuMs/1000)
+	if len(t.slow) > 12 {
+		t.slow = t.slow[:12]
+	}
+	r.Set("most_expensive_cases", t.slow)
 	r.Set("rpcs", func() []string {
 		var s []string
 		for _, m := range Methods() {
